@@ -212,6 +212,9 @@ struct MOp {
     counted_in_quota: bool,
     quota_freed: bool,
     completion_checked: bool,
+    /// a SUBSCRIBE whose length is within the subscription-identifier band of the server's
+    /// Maximum Packet Size: a local size refusal is as acceptable as sending it
+    size_unclear: bool,
 }
 
 #[derive(Clone, Debug, Default)]
@@ -548,6 +551,13 @@ impl<'a> Sim<'a> {
             // local refusals
             if let OpRes::Err(ErrSum::QuotaExceeded) = res {
                 continue; // judged in start()
+            }
+            if m.size_unclear && res == OpRes::Err(ErrSum::MaximumPacketSizeExceeded) {
+                // inside the subscription-identifier band: a refusal is as good as sending
+                let step = self.w.step;
+                self.mops[i].expected = Some(res.clone());
+                self.mops[i].final_step = Some(step);
+                continue;
             }
             match m.kind {
                 OpKind::Pub0 => {
@@ -970,9 +980,8 @@ impl<'a> Sim<'a> {
             }),
             OpSpec::Subscribe(sp) => sp.expected().map(|mut x| {
                 x.pid = 1;
-                // subscription identifiers are handed out 1, 2, 3.. per subscribe() call
-                let nth = (0..=i).filter(|k| matches!(self.w.ops[*k].spec, OpSpec::Subscribe(_))).count();
-                x.sub_id = Some(nth as u32);
+                // widest subscription identifier (4 bytes): see the band in start()
+                x.sub_id = Some(268_435_455);
                 rc::Packet::Subscribe(x)
             }),
             OpSpec::Unsubscribe(u) => u.expected().map(|mut x| {
@@ -1019,10 +1028,15 @@ impl<'a> Sim<'a> {
         let mut size_unclear = false;
         if let Some(m) = self.max_packet_size {
             let l = self.encoded_len(i) as u64;
-            // exact: the packet identifier is always two bytes, the subscription identifier
-            // is the number of subscribe() calls made so far (see encoded_len)
-            too_big = l > m as u64;
-            size_unclear = false;
+            // the packet identifier is always two bytes; the subscription identifier of a
+            // SUBSCRIBE takes 1-4 bytes and its value is the library's choice: inside that band
+            // either outcome is accepted
+            if matches!(kind, OpKind::Sub(_)) {
+                too_big = l > m as u64 + 3; // even a one-byte identifier does not fit
+                size_unclear = !too_big && l > m as u64; // fits only if the identifier is short
+            } else {
+                too_big = l > m as u64;
+            }
         }
         let refused = !too_big && matches!(kind, OpKind::Pub1 | OpKind::Pub2) && out_before >= self.r;
         self.mops.push(MOp {
@@ -1035,6 +1049,7 @@ impl<'a> Sim<'a> {
             counted_in_quota: false,
             quota_freed: false,
             completion_checked: false,
+            size_unclear,
         });
         self.msubs.push(match kind {
             OpKind::Sub(_) => Some(MSub::default()),
@@ -1321,6 +1336,7 @@ impl<'a> Sim<'a> {
                         counted_in_quota: false,
                         quota_freed: false,
                         completion_checked: false,
+                        size_unclear: false,
                     });
                     self.msubs.push(None);
                     let _ = i;
@@ -1388,6 +1404,7 @@ impl<'a> Sim<'a> {
                         counted_in_quota: false,
                         quota_freed: false,
                         completion_checked: false,
+                        size_unclear: false,
                     });
                     self.msubs.push(None);
                     self.expected_run = Some(RunExpect::SocketClosed);
@@ -1465,6 +1482,7 @@ impl<'a> Sim<'a> {
                     counted_in_quota: false,
                     quota_freed: false,
                     completion_checked: false,
+                    size_unclear: false,
                 });
                 self.msubs.push(None);
                 late.push(i);
@@ -1502,8 +1520,6 @@ impl<'a> Sim<'a> {
                 }
                 Some(res) => {
                     // completed before the drop by its own ack, or ContextExited
-                    let processed = m.final_step.is_some()
-                        && m.acks.last().map(|a| a.ctx_polled_after).unwrap_or(false);
                     let ok = if m.kind == OpKind::Disconnect && *res == OpRes::Ok && !self.tr.on_wire(i) {
                         // "disconnected" although the DISCONNECT never reached the transport
                         false
@@ -1511,7 +1527,9 @@ impl<'a> Sim<'a> {
                         true
                     } else {
                         match res {
-                            OpRes::Err(ErrSum::ContextExited) => !processed,
+                            // it was still pending when the context went away: whether it
+                            // should have completed earlier is C05's claim, not C14's
+                            OpRes::Err(ErrSum::ContextExited) => true,
                             OpRes::Err(ErrSum::QuotaExceeded) => {
                                 m.expect_refused.is_some() || !self.cfg.auto_settle
                             }
